@@ -202,20 +202,27 @@ Definition lit_match_py (s : str) : option nat :=
       else None
   | [] => None
   end.
-(* JS, for each quote character Q of SQ, DQ, backtick:  Q(\\(\\\\)*Q|[^Q])*Q      (greedy body)
-   every quote preceded by a backslash can be consumed by the body, and greedily is; a quote not preceded by
-   a backslash must close; at the end of the text the engine backtracks to the last consumed quote. *)
-Fixpoint scan_js (q : ch) (s : str) (pos : nat) (pb : bool) (fb : option nat) : option nat :=
+(* JS (after fix a149087 of finding D13), for each quote character Q of SQ, DQ, backtick:
+     Q(\\[^]|[^Q\\])*Q
+   the standard string grammar: a backslash and the character after it are consumed as a unit, any other
+   character but Q is consumed, the first Q reached closes. The alternatives are disjoint by their first
+   character, so there is nothing to backtrack to: a backslash at the very end, or no closing Q, means that no
+   literal starts at this opener. *)
+Fixpoint scan_js (q : ch) (s : str) (pos : nat) : option nat :=
   match s with
-  | [] => fb
+  | [] => None
   | c :: t =>
-      if N.eqb c q then
-        if pb then scan_js q t (S pos) false (Some (S pos)) else Some (S pos)
-      else scan_js q t (S pos) (N.eqb c BSL) fb
+      if N.eqb c q then Some (S pos)
+      else if N.eqb c BSL then
+        match t with
+        | [] => None
+        | _ :: t' => scan_js q t' (S (S pos))
+        end
+      else scan_js q t (S pos)
   end.
 Definition lit_match_js (s : str) : option nat :=
   match s with
-  | c :: t => if N.eqb c APOS || N.eqb c QT || N.eqb c BQ then scan_js c t 1 false None else None
+  | c :: t => if N.eqb c APOS || N.eqb c QT || N.eqb c BQ then scan_js c t 1 else None
   | [] => None
   end.
 Definition lit_match (fl : lang) : str -> option nat :=
